@@ -50,6 +50,16 @@ impl Variants {
     }
 }
 
+impl Variants {
+    /// A number below n from the variant stream (0 in the plain spelling).
+    fn rnd(&mut self, n: u64) -> u64 {
+        match self.rng.as_mut() {
+            None => 0,
+            Some(r) => r.below(n.max(1)),
+        }
+    }
+}
+
 pub fn wd(w: Weekday) -> &'static str {
     match w {
         Weekday::Mon => "Mo",
@@ -300,6 +310,22 @@ fn weekday_entry(v: &mut Variants, w: &WeekDayRange) -> String {
                 if *x {
                     entries.push(format!("-{}", k + 1));
                 }
+            }
+            // the positions are a set: entries may be repeated, overlap, and come in any order
+            if v.pick("nth_redundant_entries", 3) != 0 {
+                for _ in 0..1 + v.rnd(3) {
+                    let selected: Vec<String> = (0..5).filter(|k| nth_from_start[*k]).map(|k| format!("{}", k + 1)).chain((0..5).filter(|k| nth_from_end[*k]).map(|k| format!("-{}", k + 1))).collect();
+                    if selected.is_empty() {
+                        break;
+                    }
+                    let extra = selected[v.rnd(selected.len() as u64) as usize].clone();
+                    let at = v.rnd(entries.len() as u64 + 1) as usize;
+                    entries.insert(at, extra);
+                }
+            }
+            if entries.len() > 1 && v.pick("nth_entries_reordered", 3) != 0 {
+                let k = v.rnd(entries.len() as u64) as usize;
+                entries.rotate_left(k);
             }
             format!("{}[{}]{}", wd(*range.start()), entries.join(","), days_offset(v, *offset))
         }
